@@ -23,6 +23,7 @@ RULE = (
     "length <= 6 of {evaluate A, contour A, fit B, re-create from getter, fit A'} over the six predefined getters: A's snapshot and values must not change, and a model "
     "fitted from a fresh description must not depend on what was fitted before; (idgraph) two calls of each getter share no mutable node reachable from the returned objects. "
     "Non-trivial = a snapshot comparison around a call that received an array / a history with at least one fit between two evaluations; distinct by (kind, spec or getter, sequence)."
+    ' Also: negative / zero coordinates in caller arrays; a transformed model with random_state: results independent of what was evaluated in between and equal to a twin.'
 )
 ASSUMPTIONS = [
     "state that existed before a call must be unchanged after it; attributes created by the call (lazy caches) are counted, not judged (they are not 'the model's parameters')",
